@@ -17,3 +17,15 @@ package tcpip
 //@ func (Payload).Get props C11 C06
 //@   nobody
 //@   ensures implies(result2 == nil, len(result1) <= imax(size, 0))
+
+// ---------------------------------------------------------------------------
+// C09: subnet membership. A Subnet built by NewSubnet has a mask as long as its address
+// (type invariant, stated as a precondition); Contains is exactly the masked comparison.
+//@ define subnetOK(s) = len(s.mask) == len(s.address)
+//@ define subnetHas(s, a) = len(a) == len(s.address) && forall(i, 0, len(a), a[i] & s.mask[i] == s.address[i])
+
+//@ func (*Subnet).Contains props C09 C07
+//@   requires subnetOK(*s)
+//@   ensures result == subnetHas(*s, a)
+//@   loop 1 invariant 0 <= i && i <= len(a) && forall(k, 0, i, a[k] & s.mask[k] == s.address[k])
+//@   loop 1 decreases len(a) - i
